@@ -330,7 +330,11 @@ class Daemon(object):
         msg_seq = 0
         current_context.response_annotations = {}   # nothing set while serving an earlier request may ride on this answer
         try:
-            msg = protocol.recv_stub(conn, [protocol.MSG_CONNECT])
+            try:
+                msg = protocol.recv_stub(conn, [protocol.MSG_CONNECT])
+            except errors.ConnectionClosedError:
+                log.debug("handshake failed, connection closed early")
+                return False
             msg_seq = msg.seq
             if denied_reason:
                 raise Exception(denied_reason)
@@ -353,9 +357,6 @@ class Daemon(object):
             }
             data = serializer.dumps(handshake_response)
             msgtype = protocol.MSG_CONNECTOK
-        except errors.ConnectionClosedError:
-            log.debug("handshake failed, connection closed early")
-            return False
         except Exception as x:
             log.debug("handshake failed, reason:", exc_info=True)
             serializer = serializers.serializers_by_id[serializer_id]
